@@ -537,6 +537,22 @@ pub fn run_c11(ctx: &mut Ctx) {
             }
         }
     }
+    if ctx.thorough && ctx.first_shard() {
+        // exhaustive: find_substring_ignoring_whitespace for all texts of length <= 5 and substrings of length <= 3
+        // over {a, b, space, tab}, both modes
+        let alpha = ['a', 'b', ' ', '\t'];
+        let subs = gen::all_strings(&alpha, 3);
+        for s in gen::all_strings(&alpha, 5) {
+            for sub in &subs {
+                for g in [false, true] {
+                    let mut v = vec![g as u64];
+                    v.extend(enc_text(&s, g));
+                    v.extend(enc_text(sub, g));
+                    ctx.case("findsub", &v);
+                }
+            }
+        }
+    }
     let n = ctx.budget(1500, 60000);
     for i in 0..n {
         let exotic = i % 4 != 0;
